@@ -12,6 +12,14 @@ CHECKS = {
         text="Every sequence op1;op2 (thorough: also op1;op2;op3) over the whole public operation alphabet x 5 client stacks x default_noreply on/off x every fault plan with <=1 (quick) / <=2 (thorough) deviations at any socket call or reply is executed on the real code; each execution is judged by tags on reply bytes (no call reads another call's reply), nothing left unread on a live connection, no read that can never complete, and the value implied by the server's own outcomes. Exhaustive within the stated bound, not sampled.",
         note=TB + "sendall is all-or-nothing; plans with more deviations than the bound, and sequences longer than 3 calls, are not explored.",
     ),
+    "C03": dict(
+        engine="segmentation-enumerator",
+        level="exploration",
+        technique="bounded-exhaustive enumeration of reply segmentations and EINTR placements against the real reader code, differential + absolute oracle",
+        design_ref="DESIGN.md section 3 / C03",
+        text="For each of ~60 (operation, faithful reply stream) scenarios produced by the reference server, the real client is run once per segmentation of the stream into recv() results: every subset of cut positions for replies <=16 bytes (thorough 20), every <=3-cut (thorough 4) subset of the interesting positions otherwise, all-single-byte, x EINTR before one/all pieces. The result must equal the unsegmented one and the value implied by the server's outcomes.",
+        note="Trusted: the reply streams of vmc/modelserver.py; recv(n) returns <= n bytes. Segmentations of long replies with more cuts than the bound, away from the interesting positions, are not explored.",
+    ),
 }
 
 PENDING = "check not built yet in this session; planned engine and oracle are in DESIGN.md section 3"
